@@ -36,7 +36,7 @@ def _run(k, j, s2, d1, d2, da, db):
         got = simh.outputs(simh.run_public(scenario(s2, d1, d2, da, db), segs))
     except Exception as ex:
         return f'C11/paused-run-raises/{type(ex).__name__}'
-    for key in ('state', 'table', 'tasks', 'events'):
+    for key in ('state', 'table', 'tasks', 'events', 'event_rows'):
         if got[key] != ref[key]:
             detail = ''
             if key == 'events':
